@@ -1,0 +1,23 @@
+//go:build verif
+
+// Contracts for package mathhelp, read by the verification-condition generator in /verif (gvc).
+// This file contains comments only; it is compiled only with the build tag "verif" and adds no code.
+package mathhelp
+
+// What proofs may know about pow2(n) = 1 << n (uninterpreted in client proofs): these lemmas, proved against the
+// spelled-out definition (prelude arithdef).
+//@ lemma pow2_pos(n Int)
+//@   prelude arithdef
+//@   requires 0 <= n && n <= 63
+//@   ensures 1 <= pow2(n) && pow2(n) <= 9223372036854775808
+//@ lemma pow2_le32(n Int)
+//@   prelude arithdef
+//@   requires 0 <= n && n <= 32
+//@   ensures pow2(n) <= 4294967296
+//@ lemma pow2_le31(n Int)
+//@   prelude arithdef
+//@   requires 0 <= n && n <= 31
+//@   ensures pow2(n) <= 2147483648
+//@ lemma pow2_zero(n Int)
+//@   prelude arithdef
+//@   ensures pow2(0) == 1
